@@ -105,6 +105,19 @@ pub fn read_deviations(rep: &mut Report, root: &std::path::Path, prop: &str, wor
 }
 
 /// `which`: path prefix below the data directory whose reads are numbered ("blk" = the blk files, "index/" = the LevelDB index).
+/// The undisturbed run of a world fails on this tree. That is an observation about the subject, not about this harness, and
+/// C10 has a clause for it: a run that exits non-zero leaves no final-named file. The enumerations (which deviate from the
+/// fault-free call sequence) cannot be built for this world; the evidence says so.
+fn undisturbed_run_failed(rep: &mut Report, what: &str, r: &refmodel::run::RunResult) {
+    let finals: Vec<&String> = r.files.keys().filter(|n| n.ends_with(".csv")).collect();
+    if r.code != Some(0) && !finals.is_empty() {
+        rep.disagree("failed-run-leaves-final-named-file:undisturbed-run", format!("{}: exit {:?} and final-named files {:?}", what, r.code, finals), json!({"kind": "e1-described", "case": what}));
+    }
+    rep.not_covered.push(format!("{}: the undisturbed run fails on this tree (exit {:?}, {}); fault / crash-point enumeration needs a fault-free reference and was not run for it", what, r.code, r.stderr.lines().next().unwrap_or("").chars().take(160).collect::<String>()));
+    rep.count("note:undisturbed-run-failed", 1);
+    rep.exhaustive = false;
+}
+
 #[allow(clippy::too_many_arguments)]
 pub fn read_deviations_on(rep: &mut Report, root: &std::path::Path, prop: &str, world: &World, reference_world: &World, label: &str, callbacks: &[&'static str], which: &str) {
     let wk = Worker::new(root, 870);
@@ -115,7 +128,7 @@ pub fn read_deviations_on(rep: &mut Report, root: &std::path::Path, prop: &str, 
     for cb in callbacks {
         let r = wk.run(&RunSpec::new("bitcoin", cb));
         if !r.ok() {
-            return rep.machinery(format!("read deviations: reference run of {} failed", cb));
+            return undisturbed_run_failed(rep, &format!("read deviations ({}): reference run of {}", label, cb), &r);
         }
         let mut files: BTreeMap<String, Vec<u8>> = r.files.iter().map(|(k, v)| (k.clone(), canon(k, v))).collect();
         if files.is_empty() {
@@ -372,8 +385,12 @@ pub fn run() -> Report {
                 let (r, log) = run_with_log(&wk, &fault_spec(cb, &wk, ""));
                 let (r2, log2) = run_with_log(&wk, &fault_spec(cb, &wk, ""));
                 rep.transitions += 2;
-                if !r.ok() || log.is_empty() {
-                    rep.machinery(format!("fault-free {} run failed or was not intercepted (exit {:?}, {} calls)", cb, r.code, log.len()));
+                if !r.ok() {
+                    undisturbed_run_failed(&mut rep, &format!("fault-free {} run on the {} world", cb, if is_large { "large" } else { "small" }), &r);
+                    return rep;
+                }
+                if log.is_empty() {
+                    rep.machinery(format!("fault-free {} run was not intercepted (exit {:?}, {} calls)", cb, r.code, log.len()));
                     return rep;
                 }
                 let sig = |l: &Vec<Call>| l.iter().map(|c| format!("{} {} {}", c.op, c.path, c.len)).collect::<Vec<_>>();
@@ -398,7 +415,7 @@ pub fn run() -> Report {
             let r = wk.run(&RunSpec::new("bitcoin", cb).range(None, Some(2)));
             rep.transitions += 1;
             if !r.ok() {
-                rep.machinery(format!("recovery reference run of {} failed", cb));
+                undisturbed_run_failed(&mut rep, &format!("recovery reference run (-e 2) of {}", cb), &r);
                 return rep;
             }
             recovery_ref.insert(cb, r.files.iter().map(|(k, v)| (k.clone(), canon(k, v))).collect());
